@@ -140,6 +140,9 @@ func takeStale(r *fox.Router) *stale {
 func staleEntries() []entry {
 	return []entry{
 		{"stale Iter.Reverse+Routes", func(r *fox.Router) {
+			if old == nil {
+				return
+			}
 			for range old.it.Reverse(seq("GET"), "h.com", "/s/a") {
 			}
 			for range old.it.Routes(seq("GET"), "/s/a") {
@@ -148,6 +151,9 @@ func staleEntries() []entry {
 			}
 		}},
 		{"stale Txn(false) Reverse+Lookup+Iter", func(r *fox.Router) {
+			if old == nil {
+				return
+			}
 			old.txn.Reverse("GET", "", "/p/1/c/x")
 			old.txn.Has("GET", "/s/a")
 			if _, cc, _ := old.txn.Lookup(nil, req("GET", "h.com", "/s/a")); cc != nil {
@@ -157,7 +163,7 @@ func staleEntries() []entry {
 			}
 		}},
 		{"stale Lookup context CloneWith+Clone", func(r *fox.Router) {
-			if old.cc != nil {
+			if old != nil && old.cc != nil {
 				cw := old.cc.CloneWith(nil, req("GET", "", "/p/1/c/x"))
 				_ = cw.Param("id")
 				_ = old.cc.Clone()
@@ -242,10 +248,21 @@ func entries() []entry {
 	}
 }
 
-func build(cfg config) *fox.Router {
+// states of the published tree at the time the writer is parked
+var treeStates = []string{"routes", "never-written", "truncated"}
+
+func build(cfg config) *fox.Router { return buildState(cfg, "routes") }
+
+func buildState(cfg config, state string) *fox.Router {
 	r, err := fox.New(cfg.opts()...)
 	if err != nil {
 		panic(err)
+	}
+	if state == "never-written" {
+		return r
+	}
+	if state == "truncated" {
+		defer func() { _ = r.Updates(func(t *fox.Txn) error { return t.Truncate() }) }()
 	}
 	h := func(c fox.Context) { c.Writer().WriteHeader(200) }
 	for _, p := range []string{"/s/a", "/s/ab", "/p/{id}/c/*{rest}", "h.com/s/a", "/q/{x}/"} {
@@ -367,10 +384,27 @@ func main() {
 	reps := run.Pick(50, 5000)
 	ents := append(append(entries(), staleEntries()...), handedEntries()...)
 	proven := map[string]bool{} // entry points already shown to block: not re-tested (each costs a full watchdog)
-	for _, cfg := range configs {
+	type variant struct {
+		cfg   config
+		state string
+	}
+	var variants []variant
+	for i, cfg := range configs {
+		variants = append(variants, variant{cfg, "routes"})
+		if i < 2 {
+			// a router nobody has written to yet, and one whose routes were all removed: requests are answered (404) from
+			// the published empty tree, they do not wait for the first routes to be committed
+			variants = append(variants, variant{config{cfg.name + "/never-written", cfg.opts}, "never-written"}, variant{config{cfg.name + "/truncated", cfg.opts}, "truncated"})
+		}
+	}
+	for _, vr := range variants {
+		cfg := vr.cfg
 		for _, stage := range stages {
-			r := build(cfg)
-			old = takeStale(r)
+			r := buildState(cfg, vr.state)
+			old = nil
+			if vr.state == "routes" {
+				old = takeStale(r)
+			}
 			release, ok := park(r, stage)
 			if !ok {
 				run.Inconclusive("writer did not reach stage %s (config %s)", stage, cfg.name)
@@ -430,7 +464,7 @@ func main() {
 		}
 	}
 	converse(run)
-	run.SetExtra("exhaustive_subspace", fmt.Sprintf("%d read entry points x %d writer stages x %d option sets, each %d repetitions: the product is enumerated completely", len(ents), len(stages), len(configs), reps))
+	run.SetExtra("exhaustive_subspace", fmt.Sprintf("%d read entry points x %d writer stages x %d option sets, each %d repetitions: the product is enumerated completely", len(ents), len(stages), len(variants), reps))
 	run.Sample(map[string]any{"entry": ents[0].name, "stage": stages[0], "config": configs[0].name, "repetitions": reps})
 	run.Sample(map[string]any{"entry": ents[10].name, "stage": stages[5], "config": configs[2].name, "repetitions": reps})
 }
